@@ -290,10 +290,18 @@ func (adj *AdjRib) TableInfo(family bgp.Family) (*TableInfo, error) {
 	if _, ok := adj.table[family]; !ok {
 		return nil, fmt.Errorf("%s unsupported", family)
 	}
-	c := adj.Count([]bgp.Family{family})
+	// with ADD-PATH one destination holds several paths: count both
+	d, c := 0, 0
+	adj.walk([]bgp.Family{family}, func(dst *destination) bool {
+		if n := len(dst.knownPathList); n != 0 {
+			d++
+			c += n
+		}
+		return false
+	})
 	a := adj.Accepted([]bgp.Family{family})
 	return &TableInfo{
-		NumDestination: c,
+		NumDestination: d,
 		NumPath:        c,
 		NumAccepted:    a,
 	}, nil
